@@ -33,6 +33,8 @@ MUTANTS = [
     ("C07", "processor/variable_processor.py", "    identity_hash_id = str(id(node.value))\n", "    identity_hash_id = str(id(node))\n"),
     ("C07", "processor/variable_processor.py", "    var_collector.append_variable(var_id, variable)\n", ""),
     ("C07", "processor/variable_processor.py", "    variable = Variable(str(variable_type.__name__), variable_value_str, identity_hash_id, [], truncated)", "    variable = Variable(str(variable_type.__name__), variable_value_str, var_id, [], truncated)"),
+    ("C02", "processor/context/snapshot_action.py", "        return current_frame_index == 0\n", "        return current_frame_index <= 1\n"),
+    ("C02", "processor/context/snapshot_action.py", "        if config_type == NO_FRAME_TYPE:\n            return False\n", ""),
     ("C02", "processor/variable_processor.py", "    if var_name.startswith(\"_\"):\n        return ['protected']", "    if var_name.startswith(\"_\"):\n        return ['private']"),
     ("C10", "processor/context/action_context.py", "        if isinstance(result, BaseException):\n", "        if isinstance(result, BaseException) and False:\n"),
     ("C10", "utils.py", '("yes", "true", "t", "1", "y")', '("yes", "true", "t", "1", "y", "on")'),
